@@ -1,4 +1,6 @@
+pub mod adversary;
 pub mod fabric;
 pub mod props;
+pub mod refmodel;
 pub mod runner;
 pub mod world;
